@@ -26,6 +26,12 @@ def gen_cases(rng, n, n_empty):
         stream = ["clean", "noisy", "ambiguous", "noisy", "ambiguous"][k % 5]
         gap = rng.choice([0.0, 0.1, 0.3]) if stream != "ambiguous" else rng.choice([0.1, 0.3, 0.3])
         cases.append({"seed": rng.randrange(1 << 30), "stream": stream, "gap": gap, "mms": rng.choice([1, 1, 2, 3]), "force_empty": None})
+    for k in range(n // 2):
+        # real evidence, but the structure stage's answer is extended by competing structures (one default copy more / less) at a
+        # small score offset and the gap is wide: candidates of SEVERAL structures with DIFFERENT scores reach both filters
+        cases.append({"seed": rng.randrange(1 << 30), "stream": "injected-structures", "gap": rng.choice([0.5, 1.0, 2.0]), "mms": rng.choice([1, 2, 3]),
+                      "force_empty": None, "inject": [[rng.choice([1, -1]), rng.choice([0.05, 0.2, 0.35, 0.6])]
+                                                      for _ in range(rng.choice([1, 2]))]})
     for k in range(n_empty):
         cases.append({"seed": rng.randrange(1 << 30), "stream": "forced-empty", "gap": rng.choice([0.0, 0.1]), "mms": 1,
                       "force_empty": ["cn", "major", "minor"][k % 3]})
@@ -66,6 +72,8 @@ def build_sample(case, d):
     import gendb, simreads
     rng = random.Random(case["seed"])
     amb = case["stream"] == "ambiguous"
+    if case["stream"] == "injected-structures":
+        case = dict(case, stream="clean")
     yml, desc = gendb.write_db(d, rng, length=rng.randint(300, 900), n_alleles=rng.randint(4, 8),
                                deletion=(True if amb else rng.random() < 0.8), simulation_friendly=True, union=amb)
     build = rng.choice(["hg19", "hg38"])
@@ -142,7 +150,7 @@ def run_case(case):
         yml, desc, build, prof, bam, alleles, info, L, step = build_sample(case, d)
         out = {"planted": alleles, "build": build, "strand": desc["builds"][build]["strand"], "pseudogene": bool(desc["pseudogene"]),
                "L": L, "depth": L // step, "error": None}
-        with e2e.StageRecorder(case["force_empty"]) as rec:
+        with e2e.StageRecorder(case["force_empty"], inject=case.get("inject")) as rec:
             try:
                 res = genotype(yml, bam, output_file=None, solver="any", gap=case["gap"], max_minor_solutions=case["mms"],
                                **simreads.genotype_kwargs(desc, build, prof))
